@@ -23,6 +23,9 @@ OWNED, BORROWED = "owned", "borrowed"
 # an item looked up in a container by key / name (h5 group[name], dict[key]): not an array view of the
 # container; what it is cannot be told from the syntax, so writes through it are not judged
 ELEMENT = "element"
+# (a view of) an attribute of some object -- an array field of a sample set, of self, ...: certainly not a local scalar,
+# so an augmented assignment to a name bound to it (`w = self.log_w; w -= c`) updates the field in place on NumPy / torch
+BATTR = "borrowed-attr"
 
 # result aliases (may share memory with) the first argument / the receiver
 ALIAS_CALLS = {
@@ -65,7 +68,9 @@ class Ownership:
         if isinstance(e, ast.Name):
             return self.env.get(e.id, BORROWED)
         if isinstance(e, ast.Attribute):
-            return BORROWED
+            if e.attr in ("T", "mT", "real"):
+                return self.status(e.value)
+            return BATTR
         if isinstance(e, ast.Subscript):
             base = self.status(e.value)
             if base == OWNED:
@@ -74,7 +79,7 @@ class Ownership:
             parts = idx.elts if isinstance(idx, ast.Tuple) else [idx]
             if any(isinstance(p_, ast.Slice) or (isinstance(p_, ast.Constant) and p_.value is Ellipsis) for p_ in parts):
                 return base  # basic slicing: a view of the base
-            return ELEMENT if base == BORROWED else base
+            return ELEMENT if base in (BORROWED, BATTR) else base
         if isinstance(e, ast.Starred):
             return self.status(e.value)
         if isinstance(e, ast.IfExp):
@@ -151,7 +156,7 @@ class Ownership:
         out = {}
         for k in keys:
             vals = [e.get(k) for e in envs]
-            out[k] = OWNED if all(v == OWNED for v in vals) else (BORROWED if BORROWED in vals or None in vals else ELEMENT)
+            out[k] = OWNED if all(v == OWNED for v in vals) else (BORROWED if BORROWED in vals or None in vals else (BATTR if BATTR in vals else ELEMENT))
         # a name unbound on one path keeps the status of the paths that bind it only if all agree
         for k in keys:
             vals = [e[k] for e in envs if k in e]
@@ -176,6 +181,8 @@ class Ownership:
         elif isinstance(s, ast.AugAssign):
             self.scan_sinks(s.value)
             self.store_sink(s.target, s)
+            if isinstance(s.target, ast.Name) and self.env.get(s.target.id) == BATTR:
+                self.sinks.append((s, f"{s.target.id} {type(s.op).__name__.lower()}= ... (in place)", BATTR, s.target.id))
         elif isinstance(s, ast.If):
             self.scan_sinks(s.test)
             base = dict(self.env)
